@@ -120,17 +120,54 @@ func isMandatory(typ, field string) bool { return mandatory[typ+"."+field] }
 
 type rng struct{ s, e token.Position }
 
-func tokenRanges(src string) map[rng]bool {
-	m := map[rng]bool{}
+// tokenRanges: the (Start, End) pairs of the tokens of src. The lexer is asked for the tokens, but a pair only counts as
+// "the range of a token of the input" if it is verified against the text independently (own line table): both ends
+// denote positions of the source; identifier, keyword, number and operator tokens carry at Start exactly their literal
+// and end on or just behind its last byte; string tokens start at a quote and end at the matching closing quote found
+// by the reference scanner; end of input sits at the end of the source. claimed holds every pair the lexer reported.
+func tokenRanges(src string) (verified, claimed map[rng]bool) {
+	verified, claimed = map[rng]bool{}, map[rng]bool{}
+	li := newLineIndex(src)
 	lx := lexer.NewBuilder().Build(src)
 	for i := 0; i < len(src)+3; i++ {
 		tk := lx.NextToken()
-		m[rng{tk.Start, tk.End}] = true
+		claimed[rng{tk.Start, tk.End}] = true
+		if tokenIsWhereItSays(src, li, tk) {
+			verified[rng{tk.Start, tk.End}] = true
+		}
 		if tk.Type == token.EOF {
 			break
 		}
 	}
-	return m
+	return
+}
+
+func tokenIsWhereItSays(src string, li *lineIndex, tk token.Token) bool {
+	so, ok1 := li.off(tk.Start)
+	eo, ok2 := li.off(tk.End)
+	if !ok1 || !ok2 || so > len(src) || eo > len(src) {
+		return false
+	}
+	switch {
+	case tk.Type == token.EOF:
+		return so == len(src)
+	case so >= len(src):
+		return false
+	case tk.Type == token.STRING || tk.Type == token.RAW_STRING:
+		q := src[so]
+		if (tk.Type == token.STRING && q != '"' && q != '\'') || (tk.Type == token.RAW_STRING && q != '`') {
+			return false
+		}
+		last, term := refStringEnd(src, so, q, tk.Type == token.RAW_STRING)
+		if !term {
+			last = len(src) - 1
+		}
+		return eo == last || eo == last+1
+	case tk.Type == token.ILLEGAL:
+		return eo >= so
+	}
+	n := len(tk.Literal)
+	return n > 0 && so+n <= len(src) && src[so:so+n] == tk.Literal && (eo == so+n-1 || eo == so+n)
 }
 
 var allCfgs42 []Cfg
@@ -155,16 +192,31 @@ func checkParseContractCfg(t *fw.T, src string, label string, cfgOverride []Cfg)
 		pluginNoise(t.Index / 64)
 		t.Count("cases_preceded_by_plugin_activity_on_other_builders", 1)
 	}
-	var ranges map[rng]bool
+	var ranges, claimed map[rng]bool
 	for _, m := range AllModes {
 		var po ParseOut
 		wit := func() map[string]any {
 			return map[string]any{"input": src, "input_quoted": fmt.Sprintf("%q", clip(src, 300)), "mode": m.String(), "workload": label}
 		}
-		if !t.Guard("parse ("+m.String()+")", wit, func() { po = parse(src, m) }) {
+		// the order in which a caller asks is not part of the contract: every third case reads Errors() before it parses
+		// (a precondition check, logging), every third polls Errors() from a pass-through statement interceptor
+		how := (t.Index / 16) % 3
+		if !t.Guard("parse ("+m.String()+")", wit, func() {
+			switch how {
+			case 1:
+				po = parsePolled(src, m, false)
+			case 2:
+				po = parsePolled(src, m, true)
+			default:
+				po = parse(src, m)
+			}
+		}) {
 			continue
 		}
 		t.Count("parses", 1)
+		if how > 0 {
+			t.Count("parses_with_the_error_list_read_before_or_during_the_parse", 1)
+		}
 		if po.Prog == nil {
 			t.Violate("nil-program", m.String(), "ParseProgram returned a nil program for "+fmt.Sprintf("%q", clip(src, 120)), wit())
 			continue
@@ -205,16 +257,20 @@ func checkParseContractCfg(t *fw.T, src string, label string, cfgOverride []Cfg)
 		}
 		if len(po.Errors) > 0 {
 			if ranges == nil {
-				ok := t.Guard("lex for ranges", wit, func() { ranges = tokenRanges(src) })
+				ok := t.Guard("lex for ranges", wit, func() { ranges, claimed = tokenRanges(src) })
 				if !ok {
-					ranges = map[rng]bool{}
+					ranges, claimed = map[rng]bool{}, map[rng]bool{}
 				}
 			}
 			for _, e := range po.Errors {
 				if !ranges[rng{e.Range.Start, e.Range.End}] {
 					w := wit()
 					w["error"] = e
-					t.Violate("error-range", errKey(e.Message), fmt.Sprintf("error %q has range %v-%v which is not the range of a token of the input %q", e.Message, e.Range.Start, e.Range.End, clip(src, 120)), w)
+					if claimed[rng{e.Range.Start, e.Range.End}] {
+						t.Violate("error-range", "range of a token that is not where the range says", fmt.Sprintf("error %q has range %v-%v: the lexer reports a token there, but the input does not carry that token at that place: %q", e.Message, e.Range.Start, e.Range.End, clip(src, 120)), w)
+					} else {
+						t.Violate("error-range", errKey(e.Message), fmt.Sprintf("error %q has range %v-%v which is not the range of a token of the input %q", e.Message, e.Range.Start, e.Range.End, clip(src, 120)), w)
+					}
 					break
 				}
 			}
@@ -283,6 +339,12 @@ func init() {
 				r := t.Rand()
 				_, rd := randProgram(r)
 				src := mutate(r, rd)
+				if r.IntN(4) == 0 {
+					// a statement in front whose literal or comment spans lines (quoted strings may hold raw line breaks in this
+					// language): the error ranges behind it are still ranges of tokens of the input
+					src = fw.Pick(r, []string{"s = \"two\nlines\"\n", "'a\n\nb';", "`t\n  u`\n", "\"x\\\ny\"\n", "q = 'r\r\ns' + 1\n", "// c\n\"a\nb\" \"c\n", "\"é\n\" ", "x = \"1\n2\n3\"; "}) + src
+					t.Count("mutants_behind_a_literal_that_spans_lines", 1)
+				}
 				checkParseContract(t, src, "mutant")
 				t.Distinct(src)
 				if t.WantSample() && len(src) < 200 {
@@ -358,7 +420,7 @@ func ParseContractFinding(src string) (fd *Finding) {
 				return
 			}
 			if len(po.Errors) > 0 {
-				ranges := tokenRanges(src)
+				ranges, _ := tokenRanges(src)
 				for _, e := range po.Errors {
 					if !ranges[rng{e.Range.Start, e.Range.End}] {
 						fd = &Finding{"error-range", errKey(e.Message), fmt.Sprintf("error %q range %v-%v is not a token range", e.Message, e.Range.Start, e.Range.End)}
